@@ -46,6 +46,7 @@ def run(tier, seed):
     run.lean(TARGETS, THEOREMS)
     rnd = random.Random(seed * 6007 + 6)
     files = []
+    files_big = []
     for c in build_cases(seed + 66, scale(tier, 90)):
         try:
             ps = fastavro.parse_schema(json.loads(json.dumps(c["schema"])))
@@ -64,6 +65,28 @@ def run(tier, seed):
         if len(data) > 1500:
             continue
         files.append((c, data, parsed, nfs))
+    # blocks whose record count / byte length need a multi-byte varint (>= 64 records in one block): zero-, one- and
+    # two-byte records, one or two blocks, every cut offset
+    for k, (sch, mk) in enumerate([("null", lambda i: None), ("boolean", lambda i: i % 2 == 0), ("int", lambda i: i % 50),
+                                   ({"type": "record", "name": "Small", "fields": [{"name": "a", "type": "int"}, {"name": "b", "type": "boolean"}]},
+                                    lambda i: {"a": i % 60, "b": i % 3 == 0})]):
+        for nrec, ivl in ((64, 100000), (65, 100000), (130, 100000), (150, 80), (8200, 100000) if (tier != "quick" and k < 3) else (70, 100000)):
+            c = dict(schema=sch, records=[mk(i) for i in range(nrec)], codec=rnd.choice(["null", "deflate"]), level=None,
+                     meta=None, sync=bytes(range(16)), kind="bytesio", parsed=False, interval=ivl, ivl=ivl)
+            try:
+                data, _ = write_impl(c, ivl)
+                parsed = spec_parse(data)
+                ps = fastavro.parse_schema(json.loads(json.dumps(sch)))
+                nfs = list(c["records"])
+            except Exception:
+                continue
+            if len(data) <= 2500:
+                files.append((c, data, parsed, nfs))
+                run.tag("block-count>=64")
+            else:
+                big = (c, data, parsed, nfs)
+                # too long for every cut: the cuts around each block's count and length cells
+                files_big.append(big)
     reqs, meta = [], []
     for (c, data, parsed, nfs) in files:
         tab = decomp_table(parsed, c["codec"])
@@ -92,6 +115,20 @@ def run(tier, seed):
                     continue
                 reqs.append({"op": "container.read", "schema": ws, "bytes": bytes(d2).hex(), "decomp": tab, "codecs": list(CODECS)})
                 meta.append(("sync", c, bytes(d2), parsed, nfs, bi, bounds, cum, None))
+    for (c, data, parsed, nfs) in files_big:
+        tab = decomp_table(parsed, c["codec"])
+        ws = to_wire(c["schema"])
+        bounds = [parsed["header_len"]] + [b["offset"] + b["size"] for b in parsed["blocks"]]
+        cum = [0]
+        for b in parsed["blocks"]:
+            cum.append(cum[-1] + max(0, b["count"]))
+        cuts = set()
+        for b in parsed["blocks"]:
+            cuts.update(range(b["offset"] - 2, b["offset"] + 8))
+            cuts.update(range(b["offset"] + b["size"] - 18, b["offset"] + b["size"] + 1))
+        for cut in sorted(x for x in cuts if 0 <= x < len(data)):
+            reqs.append({"op": "container.read", "schema": ws, "bytes": data[:cut].hex(), "decomp": tab, "codecs": list(CODECS)})
+            meta.append(("cut", c, data, parsed, nfs, cut, bounds, cum, None))
     mouts = run_batch(reqs)
     for (kind, c, data, parsed, nfs, x, bounds, cum, _), mo in zip(meta, mouts):
         nblocks = len(parsed["blocks"])
